@@ -51,93 +51,279 @@ func (c *Ctx) HandlerToRules(prop string) {
 		}
 		n++
 		reqP := ssa.Value(H.Params[2])
-		// batch: loop over req.GetRequests()
-		var reqList ssa.Value
-		var loop *Loop
-		for _, l := range FindLoops(H) {
-			if !l.FullRange || l.BoundLen == nil {
-				continue
-			}
-			if p, base := getterPath(l.BoundLen); p == "Requests" && base == reqP {
-				// the loop that fills the data slices: contains a composite of rules data
-				for b := range l.Body {
-					for _, ins := range b.Instrs {
-						if a, ok := ins.(*ssa.Alloc); ok && a.Heap && namedOf(a.Type()) != nil && namedOf(a.Type()).Obj().Pkg().Path() == pkgRules {
-							loop, reqList = l, l.BoundLen
-						}
-					}
-				}
-			}
+		_, batch := K.Common().Signature().Results().At(0).Type().(*types.Slice)
+		bad := false
+		// "the request list" / "this position's request", with helper parameters resolved to the handler's frame through sub
+		isReqList := func(v ssa.Value, sub Subst) bool {
+			p, base := getterPath(sub.Res(sliceRootExact(sub.Res(v))))
+			return p == "Requests" && sub.Res(base) == reqP
 		}
-		batch := loop != nil
-		lenIsReqs := func(n ssa.Value) bool {
-			call, ok := n.(*ssa.Call)
-			if !ok || !isBuiltin(call, "len") {
+		var fillLoops []*Loop
+		var isReq func(v ssa.Value, sub Subst, d int) bool
+		isReq = func(v ssa.Value, sub Subst, d int) bool {
+			if d > 4 {
 				return false
 			}
-			p, base := getterPath(call.Call.Args[0])
-			return p == "Requests" && base == reqP
-		}
-		isReq := func(v ssa.Value) bool {
+			v = sub.Res(v)
 			if !batch {
 				return v == reqP
 			}
-			root, idx, ok := elemLoad(v)
-			if !ok || idx != loop.Idx {
+			u, ok := v.(*ssa.UnOp)
+			if !ok {
 				return false
 			}
-			p, base := getterPath(root)
-			return root == reqList || (p == "Requests" && base == reqP)
+			ia, ok := u.X.(*ssa.IndexAddr)
+			if !ok || !isReqList(ia.X, sub) {
+				return false
+			}
+			// the index is the induction variable of a full-range loop over the request list in the same function
+			for _, l := range FindLoops(ia.Parent()) {
+				if l.FullRange && l.Idx == ia.Index && l.BoundLen != nil && isReqList(l.BoundLen, sub) {
+					fillLoops = append(fillLoops, l)
+					return true
+				}
+			}
+			return false
 		}
-		// all stores into rules data objects in H
+		getterPathS := func(v ssa.Value, sub Subst) (string, ssa.Value) {
+			var parts []string
+			cur := sub.Res(v)
+			for i := 0; i < 8; i++ {
+				call, ok := cur.(*ssa.Call)
+				if !ok {
+					break
+				}
+				f := call.Call.StaticCallee()
+				if f == nil || !strings.HasPrefix(f.Name(), "Get") || f.Pkg == nil || f.Pkg.Pkg.Path() != pkgPB || len(call.Call.Args) != 1 {
+					break
+				}
+				parts = append([]string{strings.TrimPrefix(f.Name(), "Get")}, parts...)
+				cur = sub.Res(call.Call.Args[0])
+			}
+			return strings.Join(parts, "."), cur
+		}
+		// helperAlloc: v is a fresh rules-data object, built here or by a module helper whose single return is such an object
+		var helperAlloc func(v ssa.Value, sub Subst) (*ssa.Alloc, Subst, bool)
+		helperAlloc = func(v ssa.Value, sub Subst) (*ssa.Alloc, Subst, bool) {
+			if al, ok := v.(*ssa.Alloc); ok {
+				return al, sub, true
+			}
+			call, ok := v.(*ssa.Call)
+			if !ok || call.Call.IsInvoke() {
+				return nil, nil, false
+			}
+			h := call.Call.StaticCallee()
+			if h == nil || !prog.InModule(h) || h.Blocks == nil {
+				return nil, nil, false
+			}
+			rets := an.Returns(h)
+			if len(rets) != 1 || len(rets[0].Results) != 1 {
+				return nil, nil, false
+			}
+			ns := Subst{}
+			for k, x := range sub {
+				ns[k] = x
+			}
+			for i, q := range h.Params {
+				if i < len(call.Call.Args) {
+					ns[q] = sub.Res(call.Call.Args[i])
+				}
+			}
+			return helperAlloc(an.Result(rets[0], 0), ns)
+		}
+		// collect: the field table of one rules-data object (nested checkpoints and helper-built parts followed)
 		got := map[string]string{}
 		var dataType string
-		bad := false
-		for _, b := range H.Blocks {
-			for _, ins := range b.Instrs {
-				st, ok := ins.(*ssa.Store)
+		var collect func(obj *ssa.Alloc, prefix string, sub Subst, d int)
+		collect = func(obj *ssa.Alloc, prefix string, sub Subst, d int) {
+			if d > 4 {
+				return
+			}
+			owner := namedOf(obj.Type())
+			if owner == nil || owner.Obj().Pkg() == nil || owner.Obj().Pkg().Path() != pkgRules {
+				return
+			}
+			if prefix == "" {
+				dataType = owner.Obj().Name()
+			}
+			for _, r := range *obj.Referrers() {
+				fa, ok := r.(*ssa.FieldAddr)
 				if !ok {
 					continue
 				}
-				fa, ok := st.Addr.(*ssa.FieldAddr)
-				if !ok {
-					continue
+				for _, r2 := range *fa.Referrers() {
+					st, ok := r2.(*ssa.Store)
+					if !ok {
+						continue
+					}
+					path := prefix + fieldNameOf(fa)
+					if inner, isub, ok := helperAlloc(st.Val, sub); ok && namedOf(inner.Type()) != nil && namedOf(inner.Type()).Obj().Pkg() != nil && namedOf(inner.Type()).Obj().Pkg().Path() == pkgRules {
+						collect(inner, path+".", isub, d+1)
+						continue
+					}
+					gp, base := getterPathS(st.Val, sub)
+					if gp == "" || !isReq(base, sub, 0) {
+						bad = true
+						c.R.Fail(rule, Fn(H)+":"+path, c.Pos(st), "rules data field "+path+" is not filled from a getter of this request: "+an.Term(st.Val), path+" <- request field of the same meaning", nil)
+						continue
+					}
+					got[path] = gp
 				}
-				owner := namedOf(fa.X.Type())
-				if owner == nil || owner.Obj().Pkg() == nil || owner.Obj().Pkg().Path() != pkgRules {
-					continue
+			}
+		}
+		args := K.Common().Args
+		// the data argument of the service call
+		var dataArg ssa.Value
+		for _, a := range args {
+			t := a.Type()
+			if sl, ok := t.(*types.Slice); ok {
+				t = sl.Elem()
+			}
+			if pt, ok := t.(*types.Pointer); ok {
+				if nn := namedOf(pt.Elem()); nn != nil && nn.Obj().Pkg() != nil && nn.Obj().Pkg().Path() == pkgRules {
+					dataArg = a
 				}
-				obj, isAlloc := fa.X.(*ssa.Alloc)
-				if !isAlloc {
-					continue
+			}
+		}
+		if dataArg == nil {
+			c.R.Unknown(rule, Fn(H), c.Pos(K), "the service call has no rules-data argument")
+			continue
+		}
+		// resolveList: a per-request list passed to the service: made in the handler, or made, filled and returned by a helper
+		type listInfo struct {
+			mk  *ssa.MakeSlice
+			fn  *ssa.Function
+			sub Subst
+		}
+		resolveList := func(v ssa.Value) (listInfo, bool) {
+			if mk, ok := sliceRootExact(v).(*ssa.MakeSlice); ok {
+				return listInfo{mk, H, Subst{}}, true
+			}
+			ex, ok := v.(*ssa.Extract)
+			var call *ssa.Call
+			idx := 0
+			if ok {
+				call, _ = ex.Tuple.(*ssa.Call)
+				idx = ex.Index
+			} else {
+				call, _ = v.(*ssa.Call)
+			}
+			if call == nil || call.Call.IsInvoke() {
+				return listInfo{}, false
+			}
+			h := call.Call.StaticCallee()
+			if h == nil || !prog.InModule(h) || h.Blocks == nil {
+				return listInfo{}, false
+			}
+			rets := an.Returns(h)
+			if len(rets) != 1 || idx >= len(rets[0].Results) {
+				return listInfo{}, false
+			}
+			mk, ok := sliceRootExact(an.Result(rets[0], idx)).(*ssa.MakeSlice)
+			if !ok {
+				return listInfo{}, false
+			}
+			sub := Subst{}
+			for i, q := range h.Params {
+				if i < len(call.Call.Args) {
+					sub[q] = call.Call.Args[i]
 				}
-				// path of the field within the data object
-				path := fieldNameOf(fa)
-				if owner.Obj().Name() == "Checkpoint" {
-					// which field of the outer object holds this checkpoint
-					outer := ""
-					for _, r := range *obj.Referrers() {
-						if s2, ok := r.(*ssa.Store); ok && s2.Val == ssa.Value(obj) {
-							if fa2, ok := s2.Addr.(*ssa.FieldAddr); ok {
-								outer = fieldNameOf(fa2)
-							}
+			}
+			return listInfo{mk, h, sub}, true
+		}
+		lenOfReqs := func(n ssa.Value, sub Subst) bool {
+			call, ok := n.(*ssa.Call)
+			return ok && isBuiltin(call, "len") && isReqList(call.Call.Args[0], sub)
+		}
+		if !batch {
+			if obj, sub, ok := helperAlloc(dataArg, Subst{}); ok {
+				collect(obj, "", sub, 0)
+			} else {
+				c.R.Unknown(rule, Fn(H), c.Pos(K), "the rules data passed to the service is not a fresh object built from the request: "+an.Term(dataArg))
+				continue
+			}
+		}
+		checkArg := func(v ssa.Value, want string) {
+			if !batch {
+				if gp, base := getterPath(v); gp != want || base != reqP {
+					bad = true
+					c.R.Fail(rule, Fn(H)+":"+want, c.Pos(K), "the "+want+" passed to the service is not the request's: "+an.Term(v), want+" <- req.Get"+want+"()", nil)
+				}
+				return
+			}
+			li, ok := resolveList(v)
+			if !ok || !lenOfReqs(li.mk.Len, li.sub) {
+				bad = true
+				c.R.Fail(rule5, Fn(H)+":"+want, c.Pos(K), "the per-request "+want+" list is not made with one slot per request", "make(_, len(requests))", nil)
+				return
+			}
+			okFill := false
+			var fillStore *ssa.Store
+			for _, b := range li.fn.Blocks {
+				for _, ins := range b.Instrs {
+					st, ok := ins.(*ssa.Store)
+					if !ok {
+						continue
+					}
+					ia, ok := st.Addr.(*ssa.IndexAddr)
+					if !ok || sliceRootExact(ia.X) != ssa.Value(li.mk) {
+						continue
+					}
+					// the slot index is the induction variable of a full-range loop over the request list
+					var L *Loop
+					for _, l := range FindLoops(li.fn) {
+						if l.FullRange && l.Idx == ia.Index && l.BoundLen != nil && isReqList(l.BoundLen, li.sub) {
+							L = l
 						}
 					}
-					path = outer + "." + path
-				} else {
-					dataType = owner.Obj().Name()
-				}
-				if _, isNested := st.Val.(*ssa.Alloc); isNested {
-					continue
-				}
-				gp, base := getterPath(st.Val)
-				if gp == "" || !isReq(base) {
+					if L == nil {
+						bad = true
+						c.R.Fail(rule5, Fn(H)+":"+want, c.Pos(st), "position i of the "+want+" list is not filled at the index of a full-range loop over the requests", want+"[i] <- requests[i]", nil)
+						continue
+					}
+					if want == "data" {
+						if obj, sub, ok := helperAlloc(st.Val, li.sub); ok {
+							collect(obj, "", sub, 0)
+							okFill, fillStore = true, st
+							fillLoops = append(fillLoops, L)
+							continue
+						}
+					} else {
+						gp, base := getterPathS(st.Val, li.sub)
+						if gp == want && isReq(base, li.sub, 0) {
+							okFill, fillStore = true, st
+							fillLoops = append(fillLoops, L)
+							continue
+						}
+					}
 					bad = true
-					c.R.Fail(rule, Fn(H)+":"+path, c.Pos(st), "rules data field "+path+" is not filled from a getter of this request: "+an.Term(st.Val), path+" <- request field of the same meaning", nil)
-					continue
+					c.R.Fail(rule5, Fn(H)+":"+want, c.Pos(st), "position i of the "+want+" list is not filled from request i", want+"[i] <- requests[i]", nil)
 				}
-				got[path] = gp
 			}
+			if !okFill {
+				bad = true
+				c.R.Fail(rule5, Fn(H)+":"+want, c.Pos(K), "the "+want+" list is not filled position by position from the requests", want+"[i] <- requests[i]", nil)
+				return
+			}
+			// every iteration fills the slot and the loop runs to completion
+			for _, l := range fillLoops {
+				if l.Body[fillStore.Block()] {
+					if l.IterationSkips(func(i ssa.Instruction) bool { return i == ssa.Instruction(fillStore) }) || len(l.BreakEdges()) > 0 {
+						bad = true
+						c.R.Fail(rule5, Fn(H)+":"+want+":fill", c.Pos(fillStore), "the loop that copies the requests can skip a position or stop early", "every request copied", nil)
+					}
+				}
+			}
+		}
+		checkArg(args[2], "Account")
+		checkArg(args[3], "PublicKey")
+		if batch {
+			checkArg(dataArg, "data")
+		}
+		if dataType == "" {
+			bad = true
+			c.R.Unknown(rule, Fn(H), c.Pos(K), "no rules-data object built from the request was found for this handler")
+			continue
 		}
 		// expected: getter path == field path, with an optional leading "Data." for the nested wire message
 		var keys []string
@@ -180,55 +366,9 @@ func (c *Ctx) HandlerToRules(prop string) {
 			c.R.Fail(rule, Fn(H)+":sibling", c.Pos(K), "the single and batch handlers for "+dataType+" map the request differently: "+prev+" vs "+tbl, "sibling handlers agree", nil)
 		}
 		tables[dataType] = tbl
-		// account / public key arguments
-		args := K.Common().Args
-		checkArg := func(v ssa.Value, want string) {
-			if !batch {
-				if gp, base := getterPath(v); gp != want || base != reqP {
-					bad = true
-					c.R.Fail(rule, Fn(H)+":"+want, c.Pos(K), "the "+want+" passed to the service is not the request's: "+an.Term(v), want+" <- req.Get"+want+"()", nil)
-				}
-				return
-			}
-			mk, ok := sliceRootExact(v).(*ssa.MakeSlice)
-			if !ok || !(lenIs(mk.Len, reqList) || lenIsReqs(mk.Len)) {
-				bad = true
-				c.R.Fail(rule5, Fn(H)+":"+want, c.Pos(K), "the per-request "+want+" list is not made with one slot per request", "make(_, len(requests))", nil)
-				return
-			}
-			okFill := false
-			for _, b := range H.Blocks {
-				for _, ins := range b.Instrs {
-					st, ok := ins.(*ssa.Store)
-					if !ok {
-						continue
-					}
-					ia, ok := st.Addr.(*ssa.IndexAddr)
-					if !ok || sliceRootExact(ia.X) != ssa.Value(mk) {
-						continue
-					}
-					gp, base := getterPath(st.Val)
-					if ia.Index == loop.Idx && isReq(base) && (gp == want || want == "data") {
-						okFill = true
-					} else if want == "data" {
-						if _, isAlloc := st.Val.(*ssa.Alloc); isAlloc && ia.Index == loop.Idx {
-							okFill = true
-						}
-					} else {
-						bad = true
-						c.R.Fail(rule5, Fn(H)+":"+want, c.Pos(st), "position i of the "+want+" list is not filled from request i", want+"[i] <- requests[i]", nil)
-					}
-				}
-			}
-			if !okFill {
-				bad = true
-				c.R.Fail(rule5, Fn(H)+":"+want, c.Pos(K), "the "+want+" list is not filled position by position from the requests", want+"[i] <- requests[i]", nil)
-			}
-		}
-		checkArg(args[2], "Account")
-		checkArg(args[3], "PublicKey")
+		lenIsReqs := func(n ssa.Value) bool { return lenOfReqs(n, Subst{}) }
+		var reqList ssa.Value
 		if batch {
-			checkArg(args[4], "data")
 			// response list: one slot per request, created before the service call
 			okResp := false
 			isRespList := func(mk *ssa.MakeSlice) bool {
@@ -268,10 +408,6 @@ func (c *Ctx) HandlerToRules(prop string) {
 			if !okResp {
 				bad = true
 				c.R.Fail(rule5, Fn(H)+":responses", c.Pos(K), "the response list is not made with one entry per request", "Responses = make(_, len(requests))", nil)
-			}
-			if len(loop.BreakEdges()) > 0 {
-				bad = true
-				c.R.Fail(rule5, Fn(H)+":fill", c.Pos(loop.Header.Instrs[0]), "the loop that copies the requests can stop early", "every request copied", nil)
 			}
 		}
 		if !bad {
